@@ -473,7 +473,7 @@ def run(chk):
         k = (t.key, t.sig)
         if k in stack:
             return False        # a recursive call throws only if something else in the function does
-        if depth > 4:
+        if depth > 8:
             return True
         stack = stack + (k,)
         # members initialised from bound parameters in a constructor's initialiser list are known as well
@@ -553,7 +553,9 @@ def run(chk):
 
     nlate = 0
     for f in allf:
-        if f.cls not in GRIDCLS or f.d.get("const") or f.d.get("isctor") or f.d.get("isdtor") or f.d.get("islambda"):
+        # the factory methods of the API class are included: a failed make must leave the cleared object, nothing stored before the constructor ran.
+        # (its other methods are not: the feasibility of their deep throws depends on checks made in other methods, which the constant binding cannot see)
+        if not (f.cls in GRIDCLS or (f.cls == "TasGrid::TasmanianSparseGrid" and short(f.name).startswith("make"))) or f.d.get("const") or f.d.get("isctor") or f.d.get("isdtor") or f.d.get("islambda"):
             continue
         last = short(f.name)
         if last.startswith("read"):
@@ -708,6 +710,73 @@ def run(chk):
     if ngroups < 2:
         raise AnalysisBroken("C14-D12: fewer than two grid classes with a multi-member pending-refinement group")
     chk.floor("C14-D12.group", ngrp, 3, "throwing calls in methods that write the pending-refinement group")
+
+    # ------------------------------------------------------------------ D13 possibly empty local smart pointers
+    from rules import nullable
+    nv13, nd13 = nullable.nullable_rule(chk, db, "C14-D13.nullable", None)
+    chk.floor("C14-D13.nullable", nv13, 2, "local smart pointers that are empty on some path (the grid under construction in the two readers)")
+    chk.floor("C14-D13.nullable", nd13, 4, "dereferences of possibly empty local smart pointers")
+
+    # ------------------------------------------------------------------ D14 counts of the custom rule file
+    chk.rule("C14-D14.sized", "the reader of a custom rule file (documented: a file with an incorrect format raises one of the two exception types) sizes its containers with counts taken "
+                              "from the stream; every such count passes a `count < 0 -> throw` test on every path before it reaches resize() or a container constructor, so that a negative "
+                              "count cannot escape as std::length_error / std::bad_alloc")
+    from tsg.typestate import must_pass_before
+    nsz = 0
+    for f in db.fns("TasGrid::CustomTabulated::read", required=False):
+        if not f.d.get("targs") and not f.d.get("istemplateinst") and "<" not in f.key and not [1 for c in f.calls() if short(callee(c) or "") == "resize"]:
+            continue
+        guards = []      # (condition node, names tested for negativity) of if-statements that throw
+        for a in f.walk():
+            if a.get("k") == "IfStmt" and a.get("cond") is not None and a.get("then") is not None and \
+                    any(q.get("k") == "CXXThrowExpr" for q in [a["then"]] + list(walk(a["then"]))):
+                names = set()
+                for q in [a["cond"]] + list(walk(a["cond"])):
+                    if q.get("k") == "BinaryOperator" and q.get("op") in ("<", "<=") and const_val(strip(q["c"][1])) in (0, 1):
+                        for z in [q["c"][0]] + list(walk(q["c"][0])):
+                            if z.get("k") in ("DeclRefExpr", "MemberExpr"):
+                                names.add(z.get("var") or short(z.get("field") or "") or z.get("name"))
+                if names:
+                    guards.append((a, names))
+        # a range-for over a container with a throwing negativity test of its element guards the container
+        for a in f.walk():
+            if a.get("k") == "CXXForRangeStmt":
+                inner = [g for g in guards if any(x is g[0] for x in walk(a))]
+                if inner:
+                    rng = {z.get("var") or short(z.get("field") or "") for z in walk(a) if z.get("k") in ("DeclRefExpr", "MemberExpr")}
+                    for g in inner:
+                        g[1].update(x for x in rng if x)
+        sinks = []
+        for c in f.walk():
+            k = c.get("k")
+            if k == "CXXMemberCallExpr" and short(callee(c) or "") == "resize":
+                sinks.append((c, call_args(c)[0]))
+            elif k in ("CXXConstructExpr", "CXXTemporaryObjectExpr") and c.get("t", "").startswith("std::vector<"):
+                args = [x for x in c.get("c", []) if isinstance(x, dict)]
+                if len(args) >= 1 and (args[0].get("t", "") in ("size_t", "unsigned long", "int", "std::size_t", "std::vector::size_type") or "size_type" in args[0].get("t", "")):
+                    sinks.append((c, args[0]))
+        for c, arg in sinks:
+            if not is_reachable(f, c):
+                continue
+            used = {z.get("var") or short(z.get("field") or "") for z in [arg] + list(walk(arg)) if z.get("k") in ("DeclRefExpr", "MemberExpr")}
+            used = {u for u in used if u and u not in ("l", "i", "j")}
+            if not used:
+                continue
+            nsz += 1
+            chk.saw(f)
+            okg = [g for g, names in guards if names & used]
+            def hits(g):
+                # the test itself, or the header of a loop that applies it to every element (with no element there is nothing to size)
+                hs = [g["cond"]] + list(walk(g["cond"]))
+                for a in f.ancestors(g):
+                    hdr = a.get("cond") if a.get("k") == "ForStmt" else a.get("range") if a.get("k") == "CXXForRangeStmt" else None
+                    if hdr is not None:
+                        hs += [hdr] + list(walk(hdr))
+                return hs
+            ok = any(must_pass_before(f, c, lambda n, hs=hits(g): any(x is n for x in hs)) for g in okg)
+            chk.ob("C14-D14.sized", f.key, "container sized by `%s` at line %d" % (txt(strip(arg))[:40], c.get("l", 0)), bool(ok), f.loc(c),
+                   "" if ok else "no throwing `< 0` test of %s lies on every path to this use" % sorted(used), "count validated before it sizes a container")
+    chk.floor("C14-D14.sized", nsz, 10, "containers sized by counts read from a custom rule file")
 
     # ------------------------------------------------------------------ D11 nested-only machinery behind Global grids
     chk.rule("C14-D11.nested", "GridGlobal / DynamicConstructorDataGlobal routines that build point sets with generateNestedPoints outside an isNonNested() alternative are reachable from the API "
